@@ -18,8 +18,12 @@ GTC = 'glm/gtc/packing.inl'
 contracts = []
 
 
+FLOAT_BACKENDS = ('kissat', 'cadical', 'sat')   # float obligations: kissat is 10-50x faster than minisat here
+
+
 def C(fn, real, tier='quick', **kw):
     kw.setdefault('unwind', 2)
+    kw.setdefault('backends', FLOAT_BACKENDS)
     contracts.append((fn, real, tier, kw))
 
 
